@@ -16,7 +16,9 @@ for f in sorted(glob.glob("/verif/seeded/*/meta.json")):
     # the owning check, every check that has ever caught the change, and (only with --all) the ones that were silent
     prev = m.get("checks_quick", {})
     ever = set(m.get("ever_caught_by", [])) | {c for c, r in prev.items() if r.get("exit") == 1}
-    checks = list(dict.fromkeys([m["property"]] + [c for c in prev if c in ever or ALL]))
+    # (a change its owning check has never caught gets every listed check again)
+    rerun_all = ALL or m["property"] not in ever
+    checks = list(dict.fromkeys([m["property"]] + [c for c in prev if c in ever or rerun_all]))
     results = {}
     for c in checks:
         assert sh("git -C /repo status --porcelain")[1].strip() == "", "repo dirty"
